@@ -20,10 +20,12 @@
           `in_box_needs_start_in_box_counterexample` (F8: the hypothesis cannot be dropped)
   * "stored log-probability equal to the likelihood re-evaluated at that sample"
         → `stored_logp_is_likelihood`, `returned_logp_is_likelihood`
-  * "parameter names in vector order" is C01's round-trip theorem; here it is validated only
-    (harness oracle), see notes/C15.md.
+  * "parameter names in vector order" → `names_in_vector_order` (from the generated ladders of
+    `ParamManager` and the generated form of `MCMCSampler.param_names`, re-translated on every run;
+    C01's theorems) — and evaluated on real samplers with every block populated (harness oracle).
 -/
 import HierArc.Model.Mcmc
+import HierArc.Props.C01
 import HierArc.Proofs.Mcmc
 import HierArc.Proofs.RealInst
 import Mathlib.Tactic.Linarith
@@ -602,5 +604,30 @@ example : ∃ ws, returned (runOp (gatedLik [60] [80] (fun _ => some (0:ℝ))) (
   · intro m hm y hy
     simp at hm
     rcases hm with rfl | rfl <;> simp at hy <;> (try rcases hy with rfl | rfl) <;> simp_all
+
+/-! ### parameter names in vector order -/
+
+/-- **"parameter names in vector order"**: `MCMCSampler.param_names` forwards `ParamManager.param_list`
+    (generated form of the method); `param_list`, `args2kwargs` and `kwargs2args` concatenate the blocks in one
+    and the same order (generated); inside every block the plain name of a scalar slot is the dictionary key that
+    slot is written to / read from (generated, decided), and for every list of block instances the name list has
+    exactly one entry per vector slot while the j-th slot of a block receives the component `i + j` of the vector
+    (C01 `names_count`, `ith_component`, for every configuration).  Hence the k-th name returned by the sampler
+    names the k-th column of the stored / returned samples. -/
+theorem names_in_vector_order :
+    Gen.mcmcParamNames = "forwards param_list(latex_style)"
+    ∧ (Gen.orderNames = Gen.orderA2K ∧ Gen.orderA2K = Gen.orderK2A ∧ Gen.orderNames = Gen.blockTable.map (·.name))
+    ∧ Gen.blockTable.all C01.plainIsKey = true
+    ∧ (∀ insts : List (Ladder.Inst ℝ), (∀ p ∈ insts, p.1 ∈ Gen.blockTable) →
+        (Ladder.namesAll insts).length = Ladder.countAll insts)
+    ∧ (∀ b ∈ Gen.blockTable, ∀ (c : Ladder.Cfg ℝ), Ladder.ConstsPresent c b →
+        ∀ (args : List ℝ) (i : ℕ), i + Ladder.slotCount c b ≤ args.length →
+        ∃ (L : List Ladder.CSlot) (d : Ladder.KDict ℝ), L.length = Ladder.slotCount c b
+          ∧ (∀ (j : ℕ) (s : Ladder.CSlot), L[j]? = some s → Ladder.KDict.get? d s.key = (args[i + j]?).map s.tr.app)
+          ∧ (Ladder.concN c b.names).length = L.length) := by
+  refine ⟨C01.generated_mcmc_names, C01.generated_orders_agree, C01.generated_plain_names, C01.names_count, ?_⟩
+  intro b hb c hc args i hlen
+  obtain ⟨L, d, h1, _, h3, _, _, _, h7⟩ := C01.ith_component b hb c hc args i hlen
+  exact ⟨L, d, h1, h3, h7⟩
 
 end HierArc.Mcmc
